@@ -40,7 +40,7 @@ def run(ctx):
              "length2, quat_identity, toMat3 / toMat4 / toQuat, rotate(q, v3 / v4); exp (pure and with real part ln 2 / ln 3, up to two full turns, vanishing "
              "vector parts), log (unit and |q| = 2, 4; both signs of sin; w = +-1), exp(log q) (rational and random unit q), pow(q, b/a) with q = 2^e (cos a psi + n sin a psi) "
              "for 21 (a, b) pairs x 10 step angles, integer powers and sqrt(q)^2 = q on random / enumerated / non-unit quaternions; the four relational functions "
-             "on the IEEE lattice (NaN, infinities, signed zeros, subnormals) compared as bit patterns; quatLookAt / RH / LH for every axis x 10 up vectors; "
+             "on the IEEE lattice (NaN, infinities, signed zeros, subnormals) compared as bit patterns; quatLookAt / RH / LH for every axis x 10 up vectors, plus up vectors scaled by 2^-4..2^-14 and up vectors 2^-4..2^-14 away from +-direction; "
              "float and double; thorough adds the build with WXYZ storage and left-handed default; each event judged by TLC against exact dyadic values", exhaustive=False)
     ctx.assumptions += [
         "angles reach GLM as atan2l of integer Pythagorean triples rounded to the type, returned angles / logarithms are decoded by the harness in long double "
